@@ -771,6 +771,243 @@ unit_D(uint64_t idx)
 	return parse_case(P_DT, NULL, 0, inp, ilen, 'I');
 }
 
+static int g_only_case = -1;
+
+/* ---- mode X: texts that are no date under the format must be reported as such ----
+ * The statement: "Text that is not a date under the given formats is reported as such".  Non-dates are MADE
+ * from the text the formatter prints for the format (value 2012-03-04T12:34:56) by one mutation whose result is
+ * certainly no date under that format: a numeric field replaced by a letter, by nothing (inner fields only) or by
+ * a number outside its documented range; a name replaced by a non-name; a literal (also the separators inside
+ * %F and %T) replaced by a letter or a digit; for the day-number names the empty string, a blank, ".5", "x".
+ * Oracle: dt_strpdt (and dt_strpd for date formats) returns "unknown".  Not judged: which error is reported. */
+static const char *const xfmts[] = {
+	"%F", "%Y-%m-%d", "%d/%m/%Y", "%Y-%j", "%G-W%V-%u", "%Y-W%V-%u", "%Y %U %w", "%Y %W %u", "%Y %C %a", "%Y-%m-%c-%w", "%Y-%m-%db",
+	"%d %b %Y", "%a %d %B %Y", "%FT%T", "%T", "%H:%M", "%I:%M %p", "%Y-%q", "%Q %Y", "%dth %B %Y", "%Od.%Om.%OY", "%y-%m-%d", "%_y-%m-%d",
+	"%Y-%m-%dT%H:%M:%S", "%H:%M:%S.%N", "%s", "ymd", "ywd", "ymcw", "yd", "bizda",
+};
+#define NXFMT	((int)(sizeof(xfmts) / sizeof(*xfmts)))
+static const char *const xnames[] = {"ldn", "lilian", "mdn", "matlab", "jdn", "julian"};
+static const char *const xname_texts[] = {"", " ", ".5", "x", "-", "+", "\t"};
+
+struct xtok {
+	char spec[12];
+	char piece[40];
+	int lit;
+};
+
+static const char*
+x_oor(const char *spec)
+{
+	/* a number outside the documented range of the specifier (info/format.texi), NULL if there is none to use */
+	char c = spec[strlen(spec) - 1];
+	if (spec[1] == 'O' || spec[1] == '_') {
+		return NULL;
+	}
+	if (strlen(spec) > 2 && !(spec[2] == 't' || spec[2] == 'b' || spec[2] == 'B')) {
+		return NULL;
+	}
+	switch (spec[1]) {
+	case 'm': return "13";
+	case 'd': return spec[2] == 'b' || spec[2] == 'B' ? "24" : "32";
+	case 'j': case 'D': return "367";
+	case 'V': case 'U': case 'W': case 'C': return "54";
+	case 'c': return "6";
+	case 'u': case 'w': return "8";
+	case 'H': return "25";
+	case 'I': return "13";
+	case 'M': return "60";
+	case 'S': return "61";
+	case 'q': return "5";
+	default: (void)c; return NULL;
+	}
+}
+
+static int
+nondate_check(int func, const char *fmt, const char *text, const char *what, const char *speclab, double ord, const char *cas)
+{
+	EX_CTR(c_eval, "evaluations");
+	EX_CTR(c_cases, "nondate_cases");
+	EX_CTR(c_nontriv, "nontrivial");
+	char key[256], cmd[300], te[200], fe[64];
+	const char *fn = parser_name[func];
+	size_t flen = strlen(fmt), tlen = strlen(text);
+	const char *pf, *pi;
+	struct pres a;
+	int rc;
+
+	if (xb_skip()) {
+		return 0;
+	}
+	++*c_cases;
+	pf = xa_place(&xa_fmt, fmt, flen + 1);
+	pi = xa_place(&xa_inp, text, tlen + 1);
+	xt_fmt_lo = pf;
+	xt_fmt_hi = pf + flen + 1;
+	xt_fp = xt_ep = xt_in_fp = xt_in_ep = NULL;
+	xr.n = 0;
+	xr.total = 0;
+	rc = do_parse(func, pf, pi, &a);
+	++*c_eval;
+	if (rc) {
+		return xg_must_restart();	/* signals on such texts are mode P/I/Q business */
+	}
+	ex_outcome(ex_hash_mix(ex_hash(a.raw, 16), 77));
+	if (!a.unk) {
+		char got[64] = "";
+		if (func == P_DT) {
+			struct dt_dt_s v;
+			memcpy(&v, a.raw, sizeof(v));
+			dt_strfdt(got, sizeof(got), NULL, v);
+		}
+		++*c_nontriv;
+		xe_esc(text, tlen, te, sizeof(te));
+		xe_esc(fmt, flen, fe, sizeof(fe));
+		snprintf(key, sizeof(key), "%s: text that is no date under the format is accepted: %s, %s", fn, speclab, what);
+		cmd[0] = '\0';
+		if (func == P_DT && xe_printable(text, tlen)) {
+			snprintf(cmd, sizeof(cmd), "dconv -i '%s' '%s'; echo rc=$?", fmt, text);
+		}
+		report(key, ord, cas, *cmd ? cmd : NULL, "%s(\"%s\", \"%s\") is not \"unknown\" but %s (%s in a text that the formatter made for this format)", fn, te, fe,
+		       got[0] ? got : "a value", what);
+	} else if (replay_verbose) {
+		printf("  %s(\"%s\", \"%s\"): unknown, as it should be\n", fn, text, fmt);
+	}
+	if (ex_want_sample()) {
+		ex_sample("%s(\"%s\", \"%s\") [%s] -> %s", fn, text, fmt, what, a.unk ? "unknown" : "VALUE");
+	}
+	return 0;
+}
+
+static int
+unit_X(uint64_t idx)
+{
+	EX_CTR(c_states, "states");
+	struct xtok tk[24];
+	char fmt[64], safe[80], text[200], cas[64], lab[48];
+	const char *fp;
+	int nt = 0, rc;
+	const char *eff;
+
+	++*c_states;
+	if (idx >= (uint64_t)NXFMT) {
+		/* the day-number names: empty and blank texts */
+		const char *nm = xnames[idx - NXFMT];
+		for (size_t k = 0; k < sizeof(xname_texts) / sizeof(*xname_texts); k++) {
+			snprintf(cas, sizeof(cas), "X %llu %d", (unsigned long long)idx, (int)k);
+			snprintf(lab, sizeof(lab), "format name %s", nm);
+			if (k == 2 && (nm[0] == 'j')) {
+				continue;	/* ".5" is a number where a fraction is expected */
+			}
+			if (nondate_check(P_DT, nm, xname_texts[k], "a text without any digit in front (empty, blank, tab, sign, bare fraction, letter)", lab,
+					  (double)strlen(xname_texts[k]), cas)) {
+				return 1;
+			}
+		}
+		return 0;
+	}
+	strcpy(fmt, xfmts[idx]);
+	/* calendar names stand for their documented format */
+	eff = !strcmp(fmt, "ymd") ? "%Y-%m-%d" : !strcmp(fmt, "ywd") ? "%rY-W%V-%u" : !strcmp(fmt, "ymcw") ? "%Y-%m-%c-%w" : !strcmp(fmt, "yd") ? "%Y-%D" :
+		!strcmp(fmt, "bizda") ? "%Y-%m-%db" : fmt;
+	memset(safe, 0, sizeof(safe));
+	strcpy(safe, eff);
+	/* tokens and the piece of text each of them prints */
+	for (fp = safe; *fp && nt < 24;) {
+		const char *sav = fp, *ep = NULL;
+		struct dt_spec_s sp = c10_real_tok_spec(sav, &ep);
+		size_t l = (size_t)(ep - sav);
+		char one[16];
+		fp = ep;
+		memset(one, 0, sizeof(one));
+		memcpy(one, sav, l < 11 ? l : 11);
+		snprintf(tk[nt].spec, sizeof(tk[nt].spec), "%s", one);
+		tk[nt].lit = sp.spfl == DT_SPFL_UNK;
+		XG_BEGIN(rc) {
+			size_t n = dt_strfdt(tk[nt].piece, sizeof(tk[nt].piece) - 1, one, vals[6].d.typ && strstr(eff, "%db") ? vals[6] : vals[1]);
+			tk[nt].piece[n < sizeof(tk[nt].piece) ? n : 0] = '\0';
+		} XG_END;
+		if (rc) {
+			return 0;
+		}
+		nt++;
+	}
+#define JOIN(I, REPL)	do { \
+		size_t k_ = 0; \
+		for (int j_ = 0; j_ < nt; j_++) { \
+			k_ += (size_t)snprintf(text + k_, sizeof(text) - k_, "%s", j_ == (I) ? (REPL) : tk[j_].piece); \
+		} \
+	} while (0)
+#define TRY(WHAT, LAB)	do { \
+		snprintf(cas, sizeof(cas), "X %llu %d", (unsigned long long)idx, ncase); \
+		if (only_case < 0 || only_case == ncase) { \
+			int isdate_ = strstr(eff, "%H") == NULL && strstr(eff, "%I") == NULL && strstr(eff, "%T") == NULL && strstr(eff, "%s") == NULL && strstr(eff, "%N") == NULL; \
+			if (nondate_check(P_DT, fmt, text, (WHAT), (LAB), (double)strlen(fmt), cas)) return 1; \
+			if (isdate_ && fmt[0] == '%' && nondate_check(P_D, fmt, text, (WHAT), (LAB), (double)strlen(fmt), cas)) return 1; \
+		} \
+		ncase++; \
+	} while (0)
+	{
+		int ncase = 0, only_case = g_only_case;
+		for (int i = 0; i < nt; i++) {
+			if (tk[i].lit) {
+				snprintf(lab, sizeof(lab), "literal '%s'", tk[i].spec);
+				JOIN(i, "x");
+				TRY("literal replaced by the letter x", lab);
+				JOIN(i, "9");
+				TRY("literal replaced by the digit 9", lab);
+				continue;
+			}
+			snprintf(lab, sizeof(lab), "specifier %s", tk[i].spec);
+			if (!strcmp(tk[i].spec, "%F") || !strcmp(tk[i].spec, "%T")) {
+				/* the separators inside */
+				static const int pos[2][2] = {{4, 7}, {2, 5}};
+				int w = !strcmp(tk[i].spec, "%T");
+				for (int q = 0; q < 2; q++) {
+					char pc[40];
+					strcpy(pc, tk[i].piece);
+					if (strlen(pc) <= (size_t)pos[w][q]) {
+						continue;
+					}
+					pc[pos[w][q]] = 'x';
+					JOIN(i, pc);
+					TRY(q ? "second inner separator replaced by the letter x" : "first inner separator replaced by the letter x", lab);
+					pc[pos[w][q]] = '9';
+					JOIN(i, pc);
+					TRY(q ? "second inner separator replaced by the digit 9" : "first inner separator replaced by the digit 9", lab);
+				}
+				continue;
+			}
+			if (!strcmp(tk[i].spec, "%s")) {
+				JOIN(i, "x");
+				TRY("number replaced by the letter x", lab);
+				continue;
+			}
+			if (tk[i].piece[0] >= '0' && tk[i].piece[0] <= '9') {
+				const char *oor = x_oor(tk[i].spec);
+				JOIN(i, "x");
+				TRY("number replaced by the letter x", lab);
+				if (i + 1 < nt && tk[i + 1].lit && tk[i + 1].spec[0] != ' ') {
+					/* (in front of a blank the gap could be read as blank padding of the next field) */
+					JOIN(i, "");
+					TRY("number left out", lab);
+				}
+				if (oor) {
+					char pc[16];
+					snprintf(pc, sizeof(pc), "%s%s", oor, strlen(tk[i].spec) > 2 && tk[i].spec[2] == 't' ? "th" : strlen(tk[i].spec) > 2 ? "b" : "");
+					JOIN(i, pc);
+					TRY("number beyond its documented range", lab);
+				}
+			} else if (tk[i].piece[0]) {
+				JOIN(i, "Xyz");
+				TRY("name or numeral replaced by Xyz", lab);
+			}
+		}
+	}
+#undef JOIN
+#undef TRY
+	return 0;
+}
+
 /* mode F: one format x values x buffer sizes x formatters */
 static int
 unit_F(uint64_t idx)
@@ -842,6 +1079,7 @@ run_unit(char mode, uint64_t idx)
 	case 'P': return unit_P(idx);
 	case 'I': return unit_I(idx);
 	case 'D': return unit_D(idx);
+	case 'X': return unit_X(idx);
 	case 'F': return unit_F(idx);
 	case 'S': return unit_F(idx);
 	case 'Q': return unit_P(idx);
@@ -893,6 +1131,14 @@ main(int argc, char *argv[])
 			l2 = xe_unhex(h2, b2, sizeof(b2) - 1);
 			b2[l2] = '\0';
 			parse_case(func, nul ? NULL : b1, l1, b2, l2, mm);
+		} else if (m == 'X' && sscanf(ex.cas, "X %d %d", &func, &vi) == 2 && func >= 0 && (size_t)func < NXFMT + sizeof(xnames) / sizeof(*xnames)) {
+			if (func < NXFMT) {
+				g_only_case = vi;
+				unit_X((uint64_t)func);
+			} else {
+				xb_skip_upto = (uint64_t)vi;
+				unit_X((uint64_t)func);
+			}
 		} else if (m == 'D' && sscanf(ex.cas, "D %d %63s", &func, h1) == 2 && func >= 0 && func < NDURP) {
 			l1 = xe_unhex(h1, b1, sizeof(b1) - 1);
 			b1[l1] = '\0';
@@ -935,20 +1181,22 @@ main(int argc, char *argv[])
 		"alone and every ordered pair of them as format, for the parsers (Q) and the formatters (S), same texts / values / sizes. Every string sits in a block of exactly its size (ASan red zone before the first and behind the last byte), "
 		"the output buffer has exactly bsz bytes. Oracles: no ASan/bounds report, no fatal signal, returns within 1 s, return value <= bsz, no byte outside the buffer changed, "
 		"parser answer and end pointer independent of the bytes behind the terminators (two fills) and end pointer inside the text, formatter output independent of the bytes "
-		"behind the format's terminator. non-trivial = case with at least one report. Not judged: WHICH value a parser returns (C09) and whether partial dates are dates.",
-		(int)NNAMED, NFIXED, NINFMT, NVAL, NDTDUR, NDDUR, BSZ_MAX, (int)XC_NSPECS);
+		"behind the format's terminator. X: %d formats (each specifier in a determining context, calendar names) x the text the formatter prints for them with ONE mutation that makes it "
+		"certainly no date under the format (numeric field -> letter / nothing / beyond its documented range, name -> Xyz, literal or inner separator of %%F/%%T -> letter / digit) and "
+		"the day-number names with empty, blank, '.5', 'x' texts: dt_strpdt/dt_strpd must answer unknown. non-trivial = case with at least one report. Not judged: WHICH value a parser returns (C09) and whether partial dates are dates.",
+		(int)NNAMED, NFIXED, NINFMT, NVAL, NDTDUR, NDDUR, BSZ_MAX, (int)XC_NSPECS, NXFMT);
 	ex_meta("bound", "format strings for the parsers: length <= %d (%llu strings); input strings: length <= %d (%llu) ; duration strings: length <= %d; "
 		"format strings for the formatters: length <= %d (%llu strings) x all sizes 0..%d; specifier list: %d singles + %d ordered pairs (both tiers)",
 		lenP, (unsigned long long)nstrings(lenP), lenI, (unsigned long long)nstrings(lenI), lenI, lenF, (unsigned long long)nstrings(lenF), BSZ_MAX, (int)XC_NSPECS, (int)(XC_NSPECS * XC_NSPECS));
 
 	{
-		static const struct { char mode; int batch; } plan[] = {{'N', 1}, {'Q', 256}, {'S', 32}, {'P', 1024}, {'I', 2048}, {'D', 8192}, {'F', 128}};
+		static const struct { char mode; int batch; } plan[] = {{'N', 1}, {'X', 4}, {'Q', 256}, {'S', 32}, {'P', 1024}, {'I', 2048}, {'D', 8192}, {'F', 128}};
 		for (size_t k = 0; k < sizeof(plan) / sizeof(*plan) && !ex_expired(); k++) {
 			uint64_t total;
 			g_mode = plan[k].mode;
 			g_maxlen = g_mode == 'F' ? lenF : g_mode == 'P' ? lenP : lenI;
 			g_nenum = nstrings(g_maxlen);
-			total = g_mode == 'N' ? 1 : (g_mode == 'S' || g_mode == 'Q') ? XC_NSPECS + XC_NSPECS * XC_NSPECS :
+			total = g_mode == 'N' ? 1 : g_mode == 'X' ? (uint64_t)NXFMT + sizeof(xnames) / sizeof(*xnames) : (g_mode == 'S' || g_mode == 'Q') ? XC_NSPECS + XC_NSPECS * XC_NSPECS :
 				g_nenum + ((g_mode == 'P' || g_mode == 'F') ? NNAMED : 0);
 			for (uint64_t lo = 0; lo < total && !ex.expired; lo += (uint64_t)plan[k].batch, slice++) {
 				uint64_t hi = lo + (uint64_t)plan[k].batch < total ? lo + (uint64_t)plan[k].batch : total;
